@@ -652,7 +652,7 @@ func init() {
 		Rule: "each case is a template built from a list of segments Text|Comment|Action(trim-left,trim-right) (nested if/range/try/else/end, a block rendering 'yield content' and yields of it with text content, optional leading import clauses) printed in one of 14 delimiter configurations (incl. symmetric comment markers); " +
 			"all 729 ordered triples of 9 segment shapes (incl. an action whose body starts with '-') are enumerated per configuration, then random longer lists; a case is kept only if an independent leftmost-opener scanner recovers exactly the intended segmentation; " +
 			"oracle: byte-exact comparison with the segment model (text verbatim, trim markers strip the adjacent [ \\t\\r\\n] run only, comments vanish, whitespace-only text next to leading imports dropped) under the default HTML escaper; every 5th case is preceded by an unrelated execution whose try bodies fail after buffering text (nothing of it may show up); " +
-			"non-trivial = some text with edge whitespace is adjacent to a comment or a trimming action; distinct by (delimiter config, sequence of segment shapes)",
+			"non-trivial = some text with edge whitespace is adjacent to a comment or a trimming action; distinct by (delimiter config, sequence of segment shapes) Since wave 9: four configurations with only one marker of a pair configured; comment texts that look like trim markers ('- note', '-', ' note -').",
 		Assumptions: []string{"actions used in the generated templates (string literal, :=, if true/false, range ints, import) behave as in the segment model", "in-memory loader returns stored bytes"},
 		NCases:      c03cases,
 		RunCase:     c03run,
